@@ -72,6 +72,11 @@ def h_theorem(name):
                                         ').', pos_fix=True))
             out.append(defs.SpaceToken(args[0][-1].pos,
                                         '\n', pos_fix=True))
+            # white space behind the option: with the line break above it
+            # would make a paragraph break; without option it is consumed by
+            # the search for '['
+            while type(buf.cur()) is defs.SpaceToken:
+                buf.next()
         else:
             out.append(defs.TextToken(pos, '.', pos_fix=True))
             out.append(defs.SpaceToken(pos, '\n', pos_fix=True))
